@@ -1,6 +1,6 @@
 use miette::{IntoDiagnostic, Result};
-use std::fs::{File, OpenOptions};
-use std::io::{Read, Write};
+use std::fs::File;
+use std::io::Read;
 use std::path::Path;
 
 pub fn write_file_if_changed<T: AsRef<Path>>(path: T, data: &[u8]) -> Result<bool> {
@@ -11,17 +11,10 @@ pub fn write_file_if_changed<T: AsRef<Path>>(path: T, data: &[u8]) -> Result<boo
         }
     }
 
-    #[cfg(feature = "verif")]
-    veryl_path::sim::point("out.open", path.as_ref()).into_diagnostic()?;
-    let mut file = OpenOptions::new()
-        .create(true)
-        .write(true)
-        .truncate(true)
-        .open(path.as_ref())
-        .into_diagnostic()?;
-    #[cfg(feature = "verif")]
-    veryl_path::sim::write_point_open("out", &mut file, path.as_ref(), data).into_diagnostic()?;
-    file.write_all(data).into_diagnostic()?;
-    file.flush().into_diagnostic()?;
+    // Replace the file atomically (temp + rename). An in-place truncate + write
+    // that is interrupted (process killed, write error) leaves a truncated
+    // output behind, and an incremental build then takes the existing file for
+    // a complete one and never rewrites it.
+    veryl_path::atomic_write(path.as_ref(), data).into_diagnostic()?;
     Ok(true)
 }
